@@ -16,11 +16,12 @@ CHECKS = {
        "operation sequence (induction over reachable states): size <= capacity and the lookup table / policy structure hold the same duplicate-free key set "
        "(C15_bounded); no nil-victim panic (C15_total); refinement to an abstract map - entries change only by Set/Delete/Close or by being reported to the "
        "callback, Get returns the retrievable entry (C15_lookup); every callback carries the value held, its key is no longer retrievable, no key twice, entries "
-       "leave only by callback/Delete/Close, Close reports all (C15_callbacks, C15_close_reports_all). Model tied to the code by differential execution of "
+       "leave only by callback/Delete/Close, Close reports all (C15_callbacks, C15_close_reports_all); LRU / LFU victims are least recently / least frequently used (C15_lru_victim_..., C15_lfu_victim_...). Model tied to the code by differential execution of "
        "random + exhaustive small-scope sequences compared inside Coq, plus an independent monitor on the implementation (bounded, lookup, exact-once, panic, deadlock).",
   note="Trusted: Coq kernel+VM; closed under the global context. Modelled not verified: container/list, mutex/channel behaviour (async delivery is compared as a sequence), "
-       "TinyLFU sketch (victim choice taken from the observed eviction; theorems hold for every choice). Partial: the victim-choice clause (LRU/LFU/SLRU definitions) "
-       "is decided by the correspondence with the model, whose policy functions are the definitions; deadlock freedom is checked dynamically (5 s watchdog), not proved.",
+       "TinyLFU sketch (victim choice taken from the observed eviction; theorems hold for every choice). Victim choice: LRU and LFU are theorems by DEFINITION (a ghost last-use time / use count is carried beside the cache: every entry "
+       "evicted to make room is a least recently / least frequently used one, for every operation sequence) and an independent monitor checks the same on the implementation; SLRU's victim "
+       "(probation tail, else protected tail) is decided by the correspondence with the model. Deadlock freedom is checked dynamically (5 s watchdog), not proved.",
   technique="Coq proof (invariant + refinement by induction over operations) + differential correspondence + impl monitor", design="6/C15"),
 }
 
